@@ -725,6 +725,12 @@ func checkC10(w *World, r *Recorder) propInfo {
 	// property): a copy with a claim added or removed for signing puts keys on
 	// the wire that are not the claims that are set
 	importRules(w, r, checkC03, "C10-W14", func(o *Oblig) bool { return o.Rule == "C03-S1" })
+	// W15: for a claims-set obtained by decoding, "the claims that are set" are
+	// the ones the token carried: the unmarshallers clear the profile the
+	// factory pre-populated before decoding (C09-I2 run again under this
+	// property) — otherwise re-emitting a token without a profile claim puts
+	// key -75000 / 265 on the wire
+	importRules(w, r, checkC09, "C10-W15", func(o *Oblig) bool { return o.Rule == "C09-I2" })
 	r.Floor("C10-W1", 26)
 	r.Floor("C10-W3", 26)
 	r.Floor("C10-W4", 1)
